@@ -80,6 +80,24 @@ class FrozenAttributes(Dict[str, Union[int, bool]]):
     def update(self, *args: Any, **kwds: Any) -> None:
         raise Exception("Cannot change value.")
 
+    def __delitem__(self, key: str) -> None:
+        raise Exception("Cannot change value.")
+
+    def __ior__(self, other: Any) -> "FrozenAttributes":  # type: ignore
+        raise Exception("Cannot change value.")
+
+    def pop(self, *args: Any) -> Any:
+        raise Exception("Cannot change value.")
+
+    def popitem(self) -> Any:
+        raise Exception("Cannot change value.")
+
+    def clear(self) -> None:
+        raise Exception("Cannot change value.")
+
+    def setdefault(self, *args: Any) -> Any:
+        raise Exception("Cannot change value.")
+
     def extend(self, dictlike: Mapping[str, Union[int, bool]]) -> "FrozenAttributes":
         return FrozenAttributes(chain(self.items(), dictlike.items()))
 
